@@ -76,6 +76,9 @@ type c14gen struct {
 	pad    bool // scripts with blank lines, whitespace-only lines, leading and trailing blanks
 	via    bool // top-level tasks may go through the pip:run command
 	deep   int  // nested submissions down to this depth (0: 2)
+	plain  bool // C16: no fork command, no late-nested-run shape, manager bound beforehand
+	// C16: prefix of the full task names of a try block (the namespace of the task the block runs in)
+	tryPrefix string
 	uid    int
 	rng    *RNG
 	budget int
